@@ -603,3 +603,474 @@ Proof.
   - now apply resolve_comps_nf.
 Qed.
 Print Assumptions read_confined.
+
+(* ================================================================ zip: members are present *)
+
+Lemma decorate_dir ms pre ents m :
+  decorate ms pre (Dir ents m) =
+  VDir (map (fun kc => (fst kc, decorate ms (pre ++ [fst kc]) (snd kc))) ents)
+       (match pre with
+        | [] => None
+        | _ => option_map m_mt (zfind ms (to_path false pre ++ [slash]))
+        end).
+Proof.
+  cbn [decorate]. f_equal. induction ents as [|[k c] r IH]; [reflexivity|].
+  cbn [map fst snd]. f_equal. exact IH.
+Qed.
+
+Lemma decorate_file ms pre d m : exists o mt, decorate ms pre (File d m) = VFile o mt.
+Proof. cbn [decorate]. destruct (zfind ms (to_path false pre)); eauto. Qed.
+
+Lemma assoc_map_dec {A B} (f : str -> A -> B) c (l : list (str * A)) :
+  assoc c (map (fun kc => (fst kc, f (fst kc) (snd kc))) l) = option_map (f c) (assoc c l).
+Proof.
+  induction l as [|[k v] r IH]; [reflexivity|]. simpl.
+  destruct (str_eqb c k) eqn:E; [|exact IH]. apply str_eqb_eq in E. now subst.
+Qed.
+
+Lemma vlookup_decorate ms p : forall n pre,
+  vlookup (decorate ms pre n) p = option_map (decorate ms (pre ++ p)) (lookup n p).
+Proof.
+  induction p as [|c r IH]; intros n pre.
+  - simpl. now rewrite app_nil_r.
+  - destruct n as [d m|ents m].
+    + destruct (decorate_file ms pre d m) as (o & mt & ->). reflexivity.
+    + rewrite decorate_dir. cbn [vlookup lookup].
+      rewrite (assoc_map_dec (fun k => decorate ms (pre ++ [k])) c ents).
+      destruct (assoc c ents) as [ch|]; [|reflexivity]. simpl.
+      rewrite IH. now rewrite <- app_assoc.
+Qed.
+
+Lemma zmakedirs_grows b p b' o : zmakedirs b p = (b', o) -> grows b b'.
+Proof.
+  unfold zmakedirs. destruct (resolve (comps p)) as [cs|];
+    [|intro H; inversion H; apply grows_refl].
+  destruct (prefix_is_file b [] cs); intro H; inversion H; [apply grows_refl|apply mkdirs_grows].
+Qed.
+
+Lemma zstep_grows b raw b' o : zstep b raw = (b', o) -> grows b b'.
+Proof.
+  unfold zstep. destruct (has_char nul raw); [intro H; inversion H; apply grows_refl|].
+  destruct (ends_c slash raw); [apply zmakedirs_grows|].
+  destruct (zmakedirs b (dirname raw)) as [b1 [u| |]] eqn:E;
+    try solve [intro H; inversion H; subst; eapply zmakedirs_grows; eauto].
+  intro H. eapply grows_trans; [eapply zmakedirs_grows; eauto|eapply zcreate_grows; eauto].
+Qed.
+
+Lemma zip_build_grows raws : forall b b' o, zip_build b raws = (b', o) -> grows b b'.
+Proof.
+  induction raws as [|raw rest IH]; intros b b' o H; simpl in H.
+  - inversion H. apply grows_refl.
+  - destruct (zstep b raw) as [b1 [u| |]] eqn:E;
+      try solve [inversion H; subst; eapply zstep_grows; eauto].
+    eapply grows_trans; [eapply zstep_grows; eauto|eapply IH; eauto].
+Qed.
+
+Lemma zstep_creates b raw b' u cs :
+  is_dir b = true -> zstep b raw = (b', Ok u) -> resolve (comps raw) = Some cs ->
+  exists n, lookup b' cs = Some n /\ (ends_c slash raw = true -> is_dir n = true).
+Proof.
+  intros D H Hr. unfold zstep in H. destruct (has_char nul raw); [discriminate|].
+  destruct (ends_c slash raw) eqn:Ee.
+  - apply zmakedirs_ok in H as (cs' & Hr' & F & ->).
+    rewrite Hr in Hr'. inversion Hr'; subst cs'.
+    destruct (mkdirs_dirs0 b cs cs [] D F (eq_sym (app_nil_r _))) as (e & m & L).
+    exists (Dir e m). auto.
+  - destruct (zmakedirs b (dirname raw)) as [b1 [u1| |]] eqn:E; try discriminate.
+    unfold zcreate in H. rewrite Hr in H.
+    destruct (status_of b1 cs) eqn:S; try discriminate.
+    + destruct (status_missing_ne _ _ S) as (d & c & ->). rewrite removelast_app1 in H.
+      destruct (lookup b1 d) as [[|e m]|] eqn:L; try discriminate.
+      inversion H. exists (File [] None). split; [|discriminate].
+      eapply lookup_put_same; eauto.
+    + inversion H; subst b1. pose proof (exists_st_lookup cs b') as X. rewrite S in X.
+      destruct (lookup b' cs) as [n|]; [|discriminate]. exists n. split; [reflexivity|discriminate].
+    + inversion H; subst b1. pose proof (exists_st_lookup cs b') as X. rewrite S in X.
+      destruct (lookup b' cs) as [n|]; [|discriminate]. exists n. split; [reflexivity|discriminate].
+Qed.
+
+Lemma zip_build_present raws : forall b b' u, wf b -> zip_build b raws = (b', Ok u) ->
+  forall raw cs, In raw raws -> resolve (comps raw) = Some cs ->
+  exists n, lookup b' cs = Some n /\ (ends_c slash raw = true -> is_dir n = true).
+Proof.
+  induction raws as [|raw0 rest IH]; intros b b' u W H raw cs Hi Hr; [contradiction|].
+  simpl in H. destruct (zstep b raw0) as [b1 [u1| |]] eqn:E; try discriminate.
+  pose proof (zstep_wf _ _ _ _ W E) as W1.
+  destruct Hi as [->|Hi].
+  - destruct (zstep_creates _ _ _ _ _ (proj1 W) E Hr) as (n & L & Dn).
+    destruct (zip_build_grows _ _ _ _ H _ _ L) as (n' & L' & Dn').
+    exists n'. split; [exact L'|]. intro X. rewrite Dn'. auto.
+  - eapply IH; eauto.
+Qed.
+
+Lemma zip_read_present ms m cs : zv_first (zip_read ms) = Ok tt -> In m ms ->
+  resolve (comps (m_name m)) = Some cs ->
+  exists b n, zv_tree (zip_read ms) = decorate ms [] b /\ lookup b cs = Some n /\
+              (ends_c slash (m_name m) = true -> is_dir n = true).
+Proof.
+  unfold zip_read. destruct (zip_build empty_dir (map m_name ms)) as [b o] eqn:E. simpl.
+  intros -> Hi Hr.
+  destruct (zip_build_present _ _ _ _ wf_empty E (m_name m) cs (in_map m_name _ _ Hi) Hr)
+    as (n & L & Dn).
+  exists b, n. auto.
+Qed.
+
+Theorem zip_implicit_directories : forall ms m cs p q, zv_first (zip_read ms) = Ok tt -> In m ms ->
+  resolve (comps (m_name m)) = Some cs -> cs = p ++ q -> q <> [] ->
+  exists e mt, vlookup (zv_tree (zip_read ms)) p = Some (VDir e mt).
+Proof.
+  intros ms m cs p q H1 Hi Hr -> Hq.
+  destruct (zip_read_present ms m _ H1 Hi Hr) as (b & n & -> & L & _).
+  destruct q as [|c q']; [congruence|].
+  destruct (lookup_dir_prefix _ _ _ _ _ L) as (e & mt & Lp).
+  rewrite vlookup_decorate, Lp. cbn [option_map app]. rewrite decorate_dir. eauto.
+Qed.
+Print Assumptions zip_implicit_directories.
+
+Theorem zip_member_present : forall ms m cs, zv_first (zip_read ms) = Ok tt -> In m ms ->
+  resolve (comps (m_name m)) = Some cs ->
+  exists v, vlookup (zv_tree (zip_read ms)) cs = Some v /\ (ends_c slash (m_name m) = true -> exists e mt, v = VDir e mt).
+Proof.
+  intros ms m cs H1 Hi Hr.
+  destruct (zip_read_present ms m _ H1 Hi Hr) as (b & n & -> & L & Dn).
+  rewrite vlookup_decorate, L. cbn [option_map app]. eexists. split; [reflexivity|].
+  intro He. apply Dn in He. destruct n as [|e mt]; [discriminate|].
+  rewrite decorate_dir. eauto.
+Qed.
+Print Assumptions zip_member_present.
+
+(* ================================================================ tar: lookups in the presented tree *)
+
+Lemma status_ancfile_app p1 : forall t p2 d mt,
+  lookup t p1 = Some (File d mt) -> p2 <> [] -> status_of t (p1 ++ p2) = AncFile.
+Proof.
+  induction p1 as [|a p1 IH]; intros t p2 d mt L Hne.
+  - simpl in L. inversion L; subst t. destruct p2; [congruence|reflexivity].
+  - destruct t as [|ents m]; [discriminate|]. simpl in L |- *.
+    destruct (assoc a ents) as [ch|]; [|discriminate]. eapply IH; eauto.
+Qed.
+
+Lemma status_ancfile_inv p : forall t, status_of t p = AncFile ->
+  exists p1 p2 d mt, p = p1 ++ p2 /\ p2 <> [] /\ lookup t p1 = Some (File d mt).
+Proof.
+  induction p as [|c p IH]; intros t S.
+  - simpl in S. destruct (is_dir t); discriminate.
+  - destruct t as [d mt|ents m].
+    + exists [], (c :: p), d, mt. repeat split. discriminate.
+    + simpl in S. destruct (assoc c ents) as [ch|] eqn:E; [|discriminate].
+      destruct (IH _ S) as (p1 & p2 & d & mt & E1 & E2 & E3).
+      exists (c :: p1), p2, d, mt. split; [simpl; congruence|]. split; [exact E2|].
+      simpl. now rewrite E.
+Qed.
+
+Lemma status_ancfile_lookup t p : status_of t p = AncFile -> lookup t p = None.
+Proof.
+  intro S. pose proof (exists_st_lookup p t) as X. rewrite S in X. simpl in X.
+  destruct (lookup t p); [discriminate|reflexivity].
+Qed.
+
+Lemma status_ancfile_ext t p q : status_of t p = AncFile -> status_of t (p ++ q) = AncFile.
+Proof.
+  intro S. destruct (status_ancfile_inv _ _ S) as (p1 & p2 & d & mt & -> & Hne & L).
+  rewrite <- app_assoc. eapply status_ancfile_app; eauto.
+  destruct p2; [congruence|discriminate].
+Qed.
+
+Lemma assoc_set_id {A} k (v : A) l : assoc k l = Some v -> assoc_set k v l = l.
+Proof.
+  induction l as [|[k2 v2] r IH]; simpl; [discriminate|].
+  destruct (str_eqb k k2) eqn:E.
+  - intro H. inversion H. apply str_eqb_eq in E. now subst.
+  - intro H. now rewrite IH.
+Qed.
+
+Lemma tins_ancfile cs : forall t m, status_of t cs = AncFile -> tins t cs m = t.
+Proof.
+  induction cs as [|c rest IH]; intros t m S; [reflexivity|].
+  destruct t as [d mt|ents mt]; [apply tins_file|].
+  simpl in S. destruct (assoc c ents) as [ch|] eqn:E; [|discriminate].
+  assert (Hne : rest <> []).
+  { intro Hr. subst rest. simpl in S. destruct (is_dir ch); discriminate. }
+  rewrite tins_cons_ne by assumption. unfold child. rewrite E.
+  rewrite IH by assumption. now rewrite assoc_set_id.
+Qed.
+
+Definition node_at (t : node) (a : list str) : node :=
+  match lookup t a with Some n => n | None => Dir [] None end.
+
+Lemma tins_at a : forall t rest m, rest <> [] -> status_of t a <> AncFile ->
+  lookup (tins t (a ++ rest) m) a = Some (tins (node_at t a) rest m).
+Proof.
+  unfold node_at. induction a as [|c a IH]; intros t rest m Hne S; [reflexivity|].
+  destruct t as [d mt|ents mt]; [simpl in S; congruence|].
+  simpl app. rewrite tins_cons_ne by (destruct a; simpl; [assumption|discriminate]).
+  cbn [lookup]. rewrite assoc_set_same. unfold child.
+  destruct (assoc c ents) as [ch|] eqn:E.
+  - apply IH; [assumption|]. simpl in S. now rewrite E in S.
+  - rewrite IH; [|assumption|destruct a; simpl; discriminate].
+    destruct a; reflexivity.
+Qed.
+
+Lemma node_at_dir t a c : status_of t (a ++ [c]) <> AncFile ->
+  status_of t a <> AncFile /\ exists ents mt, node_at t a = Dir ents mt.
+Proof.
+  intro S. split.
+  - intro S2. apply S. now apply status_ancfile_ext.
+  - unfold node_at. destruct (lookup t a) as [[d mt|ents mt]|] eqn:L; eauto.
+    exfalso. apply S. eapply status_ancfile_app; eauto. discriminate.
+Qed.
+
+Definition props (m : member) (n : node) : Prop :=
+  is_dir n = m_dir m /\ node_mt n = Some (m_mt m) /\
+  (m_dir m = false -> n = File (m_data m) (Some (m_mt m))).
+
+Lemma props_tnew m c ents : props m (tnew m c ents).
+Proof.
+  unfold props, tnew. destruct (m_dir m); simpl; repeat split; auto. discriminate.
+Qed.
+
+Lemma tins_lookup_self t a c m : status_of t (a ++ [c]) <> AncFile ->
+  exists n, lookup (tins t (a ++ [c]) m) (a ++ [c]) = Some n /\ props m n.
+Proof.
+  intro S. destruct (node_at_dir _ _ _ S) as (Sa & ents & mt & En).
+  rewrite lookup_app, tins_at by (assumption || discriminate). rewrite En, tins_one.
+  cbn [lookup]. rewrite assoc_set_same. eexists. split; [reflexivity|apply props_tnew].
+Qed.
+
+Lemma lookup_dir_mt e m1 m2 q : q <> [] -> lookup (Dir e m1) q = lookup (Dir e m2) q.
+Proof. destruct q; [congruence|reflexivity]. Qed.
+
+Lemma lookup_nil_ne mt q : q <> [] -> lookup (Dir [] mt) q = None.
+Proof. destruct q; [congruence|reflexivity]. Qed.
+
+Lemma lookup_file_ne d mt q : q <> [] -> lookup (File d mt) q = None.
+Proof. destruct q; [congruence|reflexivity]. Qed.
+
+Lemma tins_lookup_below t a c m q : status_of t (a ++ [c]) <> AncFile -> q <> [] ->
+  lookup (tins t (a ++ [c]) m) ((a ++ [c]) ++ q) =
+  if m_dir m then lookup t ((a ++ [c]) ++ q) else None.
+Proof.
+  intros S Hq. destruct (node_at_dir _ _ _ S) as (Sa & ents & mt & En).
+  rewrite <- !app_assoc. cbn [app].
+  rewrite lookup_app, tins_at by (assumption || discriminate). rewrite En, tins_one.
+  cbn [lookup]. rewrite assoc_set_same. unfold tnew.
+  destruct (m_dir m); [|now apply lookup_file_ne].
+  rewrite lookup_app. unfold node_at in En.
+  destruct (lookup t a) as [n|].
+  - subst n. cbn [lookup].
+    destruct (assoc c ents) as [[d0 m0|e0 m0]|].
+    + rewrite lookup_file_ne by assumption. now apply lookup_nil_ne.
+    + now apply lookup_dir_mt.
+    + now apply lookup_nil_ne.
+  - inversion En; subst. simpl. now apply lookup_nil_ne.
+Qed.
+
+Lemma tins_dir_shape ents mt q m : q <> [] -> exists e, tins (Dir ents mt) q m = Dir e mt.
+Proof.
+  destruct q as [|c q]; [congruence|]. intros _.
+  destruct q; [rewrite tins_one|rewrite tins_cons_ne by discriminate]; eauto.
+Qed.
+
+Lemma tins_lookup_prefix t p q m : status_of t (p ++ q) <> AncFile -> q <> [] ->
+  exists e mt, lookup (tins t (p ++ q) m) p = Some (Dir e mt) /\
+               (forall n, lookup t p = Some n -> exists e0, n = Dir e0 mt).
+Proof.
+  intros S Hq.
+  assert (Sp : status_of t p <> AncFile) by (intro X; apply S; now apply status_ancfile_ext).
+  rewrite tins_at by assumption. unfold node_at.
+  destruct (lookup t p) as [[d mt|ents mt]|] eqn:L.
+  - exfalso. apply S. eapply status_ancfile_app; eauto.
+  - destruct (tins_dir_shape ents mt q m Hq) as [e ->].
+    exists e, mt. split; [reflexivity|]. intros n Hn. inversion Hn. eauto.
+  - destruct (tins_dir_shape [] None q m Hq) as [e ->].
+    exists e, None. split; [reflexivity|]. intros n Hn. discriminate.
+Qed.
+
+Lemma tins_lookup_diverge a : forall t x y p' cs' m, x <> y ->
+  lookup (tins t (a ++ y :: cs') m) (a ++ x :: p') = lookup t (a ++ x :: p').
+Proof.
+  induction a as [|c a IH]; intros t x y p' cs' m Hxy;
+    (destruct t as [d mt|ents mt]; [now rewrite tins_file|]).
+  - simpl app. destruct cs'; [rewrite tins_one|rewrite tins_cons_ne by discriminate];
+      cbn [lookup]; now rewrite assoc_set_other by assumption.
+  - simpl app. rewrite tins_cons_ne by apply app_cons_ne.
+    cbn [lookup]. rewrite assoc_set_same. unfold child.
+    destruct (assoc c ents); [now apply IH|].
+    rewrite IH by assumption. destruct a; reflexivity.
+Qed.
+
+Lemma path_cmp (p : list str) : forall cs,
+  p = cs \/ (exists q, q <> [] /\ cs = p ++ q) \/ (exists q, q <> [] /\ p = cs ++ q) \/
+  (exists a x y p' cs', x <> y /\ p = a ++ x :: p' /\ cs = a ++ y :: cs').
+Proof.
+  induction p as [|x p IH]; intros cs.
+  - destruct cs as [|y cs]; [now left|]. right; left. exists (y :: cs). split; [discriminate|reflexivity].
+  - destruct cs as [|y cs].
+    + right; right; left. exists (x :: p). split; [discriminate|reflexivity].
+    + destruct (str_eqb x y) eqn:E.
+      * apply str_eqb_eq in E. subst y.
+        destruct (IH cs) as [->|[(q & Hq & ->)|[(q & Hq & ->)|(a & x' & y' & p' & cs' & Hn & -> & ->)]]].
+        -- now left.
+        -- right; left. eauto.
+        -- right; right; left. eauto.
+        -- right; right; right. exists (x :: a), x', y', p', cs'. auto.
+      * apply str_eqb_neq in E. right; right; right. exists [], x, y, p, cs. auto.
+Qed.
+
+(* ================================================================ tar: the invariant of the presented tree *)
+
+Record tinv (es : list (str * member)) (T : node) : Prop := {
+  J1 : forall k m, In (k, m) es ->
+       status_of T (comps k) = AncFile \/ exists n, lookup T (comps k) = Some n /\ props m n;
+  J3 : forall p d mt, lookup T p = Some (File d mt) ->
+       exists k m, In (k, m) es /\ comps k = p /\ m_dir m = false }.
+
+Lemma tinv_step es T k m :
+  tinv es T -> comps k <> [] -> (forall k' m', In (k', m') es -> comps k' <> comps k) ->
+  tinv (es ++ [(k, m)]) (tins T (comps k) m).
+Proof.
+  intros [HJ1 HJ3] Hne Hfresh. remember (comps k) as cs eqn:Ecs.
+  assert (Hold : forall p d mt, lookup T p = Some (File d mt) ->
+            exists k0 m0, In (k0, m0) (es ++ [(k, m)]) /\ comps k0 = p /\ m_dir m0 = false).
+  { intros p d mt L. destruct (HJ3 _ _ _ L) as (k0 & m0 & Hi & Hc & Hd).
+    exists k0, m0. rewrite in_app_iff. auto. }
+  assert (Hdec : status_of T cs = AncFile \/ status_of T cs <> AncFile)
+    by (destruct (status_of T cs); [right|left|right|right]; congruence).
+  destruct Hdec as [S|Sne].
+  { rewrite tins_ancfile by assumption. split; [|exact Hold].
+    intros k' m' Hi. apply in_app_iff in Hi as [Hi|[Hi|[]]]; [now apply HJ1|].
+    inversion Hi; subst k' m'. left. now rewrite <- Ecs. }
+  destruct (list_snoc_case cs) as [Ea|(a & c & Ea)]; [congruence|].
+  destruct (tins_lookup_self T a c m) as (n0 & L0 & P0); [now rewrite <- Ea|].
+  assert (B : forall q, q <> [] ->
+              lookup (tins T cs m) (cs ++ q) = if m_dir m then lookup T (cs ++ q) else None).
+  { intros q Hq. rewrite Ea. apply tins_lookup_below; [now rewrite <- Ea|exact Hq]. }
+  rewrite <- Ea in L0.
+  assert (HF : m_dir m = false -> lookup (tins T cs m) cs = Some (File (m_data m) (Some (m_mt m)))).
+  { intro Dm. destruct P0 as (_ & _ & P3). now rewrite <- (P3 Dm). }
+  split.
+  - intros k' m' Hi. apply in_app_iff in Hi as [Hi|[Hi|[]]].
+    2:{ inversion Hi; subst k' m'. right. exists n0. rewrite <- Ecs. auto. }
+    pose proof (Hfresh _ _ Hi) as Hd.
+    destruct (HJ1 _ _ Hi) as [A|(n & L & P)].
+    + destruct (status_ancfile_inv _ _ A) as (p1 & p2 & d & mt & Ek & Hp2 & Lp1).
+      left. rewrite Ek.
+      destruct (path_cmp p1 cs)
+        as [E|[(q & Hq & Eq)|[(q & Hq & Eq)|(a' & x & y & p' & cs' & Hn & Ep & Eq)]]].
+      * exfalso. subst p1. destruct (HJ3 _ _ _ Lp1) as (k0 & m0 & Hi0 & Hc0 & _).
+        exact (Hfresh _ _ Hi0 Hc0).
+      * exfalso. apply Sne. rewrite Eq. eapply status_ancfile_app; eauto.
+      * destruct (m_dir m) eqn:Dm.
+        -- eapply status_ancfile_app; [|exact Hp2]. rewrite Eq, (B q Hq). exact (eq_trans (f_equal (lookup T) (eq_sym Eq)) Lp1).
+        -- rewrite Eq, <- app_assoc. eapply status_ancfile_app; [exact (HF eq_refl)|].
+           destruct q; [congruence|discriminate].
+      * eapply status_ancfile_app; [|exact Hp2].
+        rewrite Ep in Lp1 |- *. rewrite Eq. rewrite tins_lookup_diverge by auto. exact Lp1.
+    + destruct (path_cmp (comps k') cs)
+        as [E|[(q & Hq & Eq)|[(q & Hq & Eq)|(a' & x & y & p' & cs' & Hn & Ep & Eq)]]].
+      * contradiction.
+      * right. rewrite Eq in Sne |- *.
+        destruct (tins_lookup_prefix T (comps k') q m Sne Hq) as (e & mt & Le & Hsame).
+        destruct (Hsame _ L) as (e0 & En). subst n.
+        exists (Dir e mt). split; [exact Le|].
+        destruct P as (P1 & P2 & P3). split; [exact P1|split; [exact P2|]].
+        intro X. simpl in P1. congruence.
+      * rewrite Eq in L |- *. destruct (m_dir m) eqn:Dm.
+        -- right. exists n. split; [|exact P]. rewrite (B q Hq). exact L.
+        -- left. eapply status_ancfile_app; [exact (HF eq_refl)|exact Hq].
+      * right. exists n. split; [|exact P]. rewrite Ep in L |- *. rewrite Eq.
+        rewrite tins_lookup_diverge by auto. exact L.
+  - intros p d mt L.
+    destruct (path_cmp p cs)
+      as [E|[(q & Hq & Eq)|[(q & Hq & Eq)|(a' & x & y & p' & cs' & Hn & Ep & Eq)]]].
+    + subst p. rewrite L0 in L. inversion L; subst n0. exists k, m. rewrite in_app_iff.
+      split; [right; now left|]. split; [now rewrite Ecs|].
+      destruct P0 as (P1 & _). simpl in P1. congruence.
+    + exfalso. rewrite Eq in Sne, L.
+      destruct (tins_lookup_prefix T p q m Sne Hq) as (e & mt' & Le & _). congruence.
+    + rewrite Eq, (B q Hq) in L. destruct (m_dir m); [|discriminate].
+      rewrite <- Eq in L. eapply Hold; eauto.
+    + rewrite Ep, Eq, tins_lookup_diverge in L by auto. rewrite <- Ep in L. eapply Hold; eauto.
+Qed.
+
+Lemma tinv_tar_tree es : NoDup (keys es) -> Forall safe_name (keys es) -> tinv es (tar_tree es).
+Proof.
+  induction es as [|[k m] es IH] using rev_ind; intros N S.
+  - split; [intros k m []|]. intros p d mt L. destruct p; simpl in L; discriminate.
+  - rewrite keys_snoc in N, S. cbn [fst] in N, S.
+    apply Forall_app in S as [S1 S2]. inversion S2 as [|? ? Sk _]; subst.
+    pose proof (NoDup_remove_1 _ _ _ N) as N1. rewrite app_nil_r in N1.
+    pose proof (NoDup_remove_2 _ _ _ N) as N2. rewrite app_nil_r in N2.
+    rewrite tar_tree_snoc. cbn [fst snd].
+    destruct (safe_comps _ Sk) as (Hne & _ & Ek).
+    apply tinv_step; [now apply IH|exact Hne|].
+    intros k' m' Hi Hc. apply N2.
+    assert (Hk' : In k' (keys es)) by (change k' with (fst (k', m')); now apply in_map).
+    rewrite Forall_forall in S1. destruct (safe_comps _ (S1 _ Hk')) as (_ & _ & Ek').
+    rewrite Ek, <- Hc, <- Ek'. exact Hk'.
+Qed.
+
+Lemma tinv_tar_read ms : tinv (tar_entries ms) (tar_read ms).
+Proof. apply tinv_tar_tree; apply entries_inv. Qed.
+
+Lemma tar_shadowed_char ms k :
+  In k (tar_shadowed ms) <-> In k (keys (tar_entries ms)) /\ lookup (tar_read ms) (comps k) = None.
+Proof.
+  unfold tar_shadowed. rewrite filter_In.
+  destruct (lookup (tar_read ms) (comps k)); split; intros [H1 H2]; split; auto; discriminate.
+Qed.
+
+(* ================================================================ implicit directories, and the one exception *)
+
+Theorem tar_shadowed_iff : forall ms k, In k (tar_shadowed ms) <->
+  (In k (keys (tar_entries ms)) /\ exists p q m, comps k = p ++ q /\ p <> [] /\ q <> [] /\
+      assoc (to_path false p) (tar_entries ms) = Some m /\ m_dir m = false).
+Proof.
+  intros ms k. rewrite tar_shadowed_char.
+  destruct (tinv_tar_read ms) as [HJ1 HJ3]. destruct (entries_inv ms) as [N S].
+  rewrite Forall_forall in S.
+  split; intros [Hin H]; (split; [exact Hin|]).
+  - destruct (in_keys_assoc _ _ Hin) as [m Hm]. apply assoc_some_In in Hm.
+    destruct (HJ1 _ _ Hm) as [A|(n & L & _)]; [|congruence].
+    destruct (status_ancfile_inv _ _ A) as (p1 & p2 & d & mt & Ek & Hp2 & Lp1).
+    destruct (HJ3 _ _ _ Lp1) as (k1 & m1 & Hi1 & Hc1 & Hd1).
+    assert (Hk1 : In k1 (keys (tar_entries ms)))
+      by (change k1 with (fst (k1, m1)); now apply in_map).
+    destruct (safe_comps _ (S _ Hk1)) as (Hne1 & _ & Ek1).
+    exists p1, p2, m1. split; [exact Ek|]. split; [now rewrite <- Hc1|]. split; [exact Hp2|].
+    split; [|exact Hd1]. rewrite <- Hc1, <- Ek1. now apply In_assoc_nodup.
+  - destruct H as (p & q & m' & Ek & Hp & Hq & Ha & Hd).
+    destruct (safe_comps _ (S _ Hin)) as (_ & Hg & _). rewrite Ek in Hg.
+    apply Forall_app in Hg as [Hgp _].
+    apply assoc_some_In in Ha.
+    assert (Ec : comps (to_path false p) = p)
+      by (unfold comps; now rewrite split_to_path by assumption).
+    rewrite Ek. apply status_ancfile_lookup.
+    destruct (HJ1 _ _ Ha) as [A|(n & L & P)]; rewrite Ec in *.
+    + now apply status_ancfile_ext.
+    + destruct P as (_ & _ & P3). rewrite (P3 Hd) in L. eapply status_ancfile_app; eauto.
+Qed.
+Print Assumptions tar_shadowed_iff.
+
+Theorem tar_key_present : forall ms k m, assoc k (tar_entries ms) = Some m -> ~ In k (tar_shadowed ms) ->
+  exists n, lookup (tar_read ms) (comps k) = Some n /\ is_dir n = m_dir m /\ node_mt n = Some (m_mt m) /\
+            (m_dir m = false -> n = File (m_data m) (Some (m_mt m))).
+Proof.
+  intros ms k m Ha Hns. destruct (tinv_tar_read ms) as [HJ1 _].
+  destruct (HJ1 _ _ (assoc_some_In _ _ _ Ha)) as [A|(n & L & P1 & P2 & P3)].
+  - exfalso. apply Hns. apply tar_shadowed_char. split; [eapply assoc_some_in; eauto|].
+    now apply status_ancfile_lookup.
+  - exists n. auto.
+Qed.
+Print Assumptions tar_key_present.
+
+Theorem tar_implicit_directories : forall ms k p q, In k (keys (tar_entries ms)) -> ~ In k (tar_shadowed ms) ->
+  comps k = p ++ q -> q <> [] -> exists e mt, lookup (tar_read ms) p = Some (Dir e mt).
+Proof.
+  intros ms k p q Hin Hns Ek Hq.
+  destruct (lookup (tar_read ms) (comps k)) as [n|] eqn:L.
+  - rewrite Ek in L. destruct q as [|c q']; [congruence|].
+    eapply lookup_dir_prefix; eauto.
+  - exfalso. apply Hns. apply tar_shadowed_char. auto.
+Qed.
+Print Assumptions tar_implicit_directories.
